@@ -100,7 +100,7 @@ def _runaway_cases(Ms):
 
 
 # ------------------------------------------------------------------ Part B
-N_ITER = 50
+N_ITER = 30
 
 
 def inline_body(chain, exit_kind, pos, uncaught=False):
@@ -134,6 +134,10 @@ def inline_body(chain, exit_kind, pos, uncaught=False):
     return body
 
 
+# the throw crosses a native frame (callback-taking built-in, accessor, conversion) before it is caught
+NATIVE_CONTEXTS = ["[1].forEach(function () { f() });", "r = [2, 1].sort(function () { return f() });",
+                   "r = ({get x() { return f() }}).x;", "r = 1 + {valueOf: function () { return f() }};",
+                   "r = [1, 2].reduce(function (a, b) { return f() });", "r = 'a'.replace('a', function () { return f() });"]
 CONTEXTS = ["f();", "r = 1 + f();", "r = [0, f(), 2];", "r = g(0, f());", "r = a[f()];", "r = {a: 1 + f()};"]
 
 
@@ -167,10 +171,45 @@ def residue_programs(depth, constructs):
                         tb = [P.out(1)] + tb + [P.out(2), ("return", 2)]
                         if not P.early_error(tb, in_function=True):
                             fsrc = P.stmt(("func", "f", [], tb))
-                            for ctx in CONTEXTS:
+                            for ctx in CONTEXTS + NATIVE_CONTEXTS:
                                 src = (pre + fsrc + " var I = 0; while (I < NN) { I++; try { " + ctx +
                                        " } catch (ee) { __out(ee) } __mark(); } I")
                                 yield "throwing|%s|%s|%s" % (">".join(chain), pos, ctx), src
+
+
+def tryshape_programs(two_deep):
+    """Every try/catch/finally shape of mc/gen/tryshapes.py (exit kinds in the try, catch and finally blocks, incl.
+    break/continue/return/throw out of a finally or catch block while an exception is pending), inline in a loop of the
+    driver and inside a function called from the driver."""
+    from mc.gen import tryshapes as T
+    shapes = [(sh, None, None) for sh in T.SHAPES]
+    if two_deep:
+        small = T.smallest(24)
+        for sh in small:
+            for inner in small:
+                for pos in ("try", "catch", "finally"):
+                    if (pos == "catch" and sh[1] == "absent") or (pos == "finally" and sh[2] == "absent"):
+                        continue
+                    shapes.append((sh, inner, pos))
+    for sh, inner, pos in shapes:
+        isrc = T.shape_src(inner, 50, 2) if inner is not None else None
+        body = T.shape_src(sh, 0, 1, isrc, pos)
+        name = T.sh_name(sh) + ("" if inner is None else "/%s@%s" % (T.sh_name(inner), pos))
+        uses_return = "return" in sh or (inner is not None and "return" in inner)
+        if not uses_return:
+            src = ("var I = 0; while (I < NN) { I++; try { for (var q = 0; q < 2; q++) { " + body +
+                   " } } catch (ez) { __out(ez) } __mark(); } I")
+            yield "tryshape-inline|" + name, src
+        src = ("function fn() { for (var q = 0; q < 2; q++) { " + body + " } return 6 } var I = 0; while (I < NN) { I++; "
+               "try { __out(1 + fn()) } catch (ez) { __out(ez) } __mark(); } I")
+        yield "tryshape-func|" + name, src
+        src = ("function fn() { for (var q = 0; q < 2; q++) { " + body + " } return 6 } var I = 0; while (I < NN) { I++; "
+               "try { [1].forEach(function () { __out([0, fn()]) }) } catch (ez) { __out(ez) } __mark(); } I")
+        yield "tryshape-native|" + name, src
+
+
+def _tryshape_cases(two_deep):
+    return [(cid, {"src": src}) for cid, src in tryshape_programs(two_deep)]
 
 
 def run_residue(payload):
@@ -186,7 +225,8 @@ def run_residue(payload):
 
     def mark(*a):
         vm = ctx._current_vm
-        marks.append((len(vm.stack), len(vm.exception_handlers), len(vm.call_stack)))
+        marks.append((len(vm.stack), len(vm.exception_handlers), len(vm.call_stack),
+                      getattr(vm, "native_depth", [0])[0], len(getattr(vm, "_callback_bases", ()))))
         return e.UNDEFINED
 
     ctx._globals["__mark"] = mark
@@ -207,8 +247,9 @@ def run_residue(payload):
         if len(marks) != n:
             oc = "driver back edge reached %d times instead of %d" % (len(marks), n)
         elif len(set(marks)) != 1:
-            d = [marks[-1][i] - marks[0][i] for i in range(3)]
-            oc = "residue after %d iterations: operands %+d, handlers %+d, frames %+d" % (n, d[0], d[1], d[2])
+            d = [marks[-1][i] - marks[0][i] for i in range(5)]
+            oc = ("residue after %d iterations: operands %+d, handlers %+d, frames %+d, native re-entries %+d, callback bases %+d"
+                  % (n, d[0], d[1], d[2], d[3], d[4]))
     return oc + "\x00ok"
 
 
@@ -248,9 +289,13 @@ def spaces(tier, seed, all_strata=False):
             "shapes x M", batch=2),
         _sp("c02_residue_d1", "run_residue", lambda: _residue_cases(1, P.CONSTRUCTS),
             "every one-construct body x exit kind x position, placed inline in the driver loop, inside a function called "
-            "in 6 expression contexts, and as a throwing callee caught by the driver in mid-expression; 50 iterations; "
-            "(operand, handler, call) depths at the back edge must be constant; non-trivial = body has an abrupt exit "
+            "in 6 expression contexts, and as a throwing callee caught by the driver in mid-expression or across 6 kinds of native "
+            "frame; 30 iterations; (operand, handler, call, native re-entry, callback base) depths at the back edge must be constant; non-trivial = body has an abrupt exit "
             "or a caught exception", "depth 1", nontrivial=_nontrivial),
+        _sp("c02_tryshapes", "run_residue", lambda: _tryshape_cases(False),
+            "all 205 try/catch/finally shapes (5 try exits x 7 catch exits x 6 finally exits, incl. break/continue/return/throw "
+            "leaving a catch or finally block while an exception is pending) inline in the driver loop, inside a function used "
+            "as an operand, and below a native frame", "all shapes", nontrivial=lambda cid, p, exp: "normal.absent.absent" not in cid),
         _sp("c02_residue_d2", "run_residue", lambda: _residue_cases(2, C2),
             "every two-level nesting of 14 constructs x 9 exit kinds x 3 positions, same three placements", "depth 2",
             nontrivial=_nontrivial),
@@ -258,6 +303,9 @@ def spaces(tier, seed, all_strata=False):
     strata = [_sp("c02_residue_d3_%d" % k, "run_residue", (lambda k=k: _residue_cases(3, C3, pick=(k, 6))),
                   "three-level nestings over 7 constructs (slice %d of 6)" % k, "depth 3", nontrivial=_nontrivial)
               for k in range(6)]
+    strata.append(_sp("c02_tryshapes_nested", "run_residue", lambda: _tryshape_cases(True)[615:],
+                      "the 24 smallest try shapes nested in the try, catch and finally block of each other", "two deep",
+                      nontrivial=lambda cid, p, exp: True))
     strata.append(_sp("c02_runaway_big", "run_runaway", lambda: _runaway_cases([10 ** 7]),
                       "recursion shapes at M = 1e7", "M = 1e7", batch=1))
     strata.append(_sp("c02_longrun", "run_residue",
